@@ -151,6 +151,25 @@ class World:
                 a >> ~b
             else:
                 a >> b
+        elif k == "xmix":
+            # ["xmix", spelling, [a, dis_a], [[b, dis_b], ...], f, pos]: one request whose list operand
+            # holds modules of this project and, at position pos, a module of the other project
+            f = self.foreign.modules[op[4]]
+            a = self.wrap(op[2])
+            items = [self.wrap(x) for x in op[3]]
+            items.insert(min(op[5], len(items)), f)
+            try:
+                if op[1] == "connect_to":
+                    p.connect(a, items)
+                elif op[1] == "connect_from":
+                    p.connect(items, a)
+                elif op[1] == "rshift":
+                    M(op[2][0]) >> items
+                else:
+                    M(op[2][0]) << items
+            except Exception as e:  # noqa: BLE001
+                return e
+            return False
         elif k == "x":
             f = self.foreign.modules[op[3]]
             a = M(op[2])
